@@ -90,9 +90,21 @@ def run_word(segs, quote, env, status, how):
     extra = {}
     if how == "export":
         extra = dict(env)
-    else:
+    elif how == "assign":
         for k, v in env.items():
             pre += "%s='%s' ; " % (k, v)     # values never contain a single quote
+    elif how == "assign-then-export":
+        # the *current* value is the exported one; a stale shell variable of the same name exists
+        for k, v in env.items():
+            if "~" in v:
+                # `export` applies its own tilde expansion to the value (even quoted): not C10's subject
+                pre += "%s='%s' ; " % (k, v)
+            else:
+                pre += "%s='stale-%s' ; export %s='%s' ; " % (k, k, k, v)
+    else:   # export-then-assign: an exported name re-assigned as a plain variable takes the new value
+        extra = {k: "old-" + k for k in env}
+        for k, v in env.items():
+            pre += "%s='%s' ; " % (k, v)
     line = "%svp_status %d m ; vp_argv %s%s%s" % (pre, status, q, word, q)
     sb = _sb
     sb.reset_log()
@@ -143,13 +155,15 @@ def judge(case):
     if sym == "TIMEOUT":
         return ("inconclusive", "timeout without diagnosis", res)
     # 1. does it depend on how the variables got their values (assignment words are tokens too)?
-    if how == "assign":
+    if how != "export":
         w3, l3, r3, recs3 = run_word(segs, quote, env, status, "export")
         s3 = symptom(w3, quote, env, status, r3, recs3)
         if s3 is None:
             vals = "".join(env.values())
             why = "brace-expanded" if ("{" in vals and "," in vals) else "changed"
-            return ("violated", "C10:assignment-word-value-is-%s:%s" % (why, sym), res)
+            if how == "assign" or why == "brace-expanded":
+                return ("violated", "C10:assignment-word-value-is-%s:%s" % (why, sym), res)
+            return ("violated", "C10:value-set-by-%s-is-not-the-one-expanded:%s" % (how, sym), res)
     # 2. which later pass re-read the substituted text?  (decided on the text the model expects)
     exp = res["expected"]
     fam = None
@@ -206,7 +220,7 @@ def gen_case(rng):
     if not any(s[0] == "ref" for s in segs):
         segs.append(("ref", "plain", names[0]))
     return {"segs": segs, "quote": rng.choice(["unq", "dq", "dq", "sq"]), "env": env, "classes": classes,
-            "status": rng.choice([0, 3, 127]), "how": rng.choice(["export", "assign"])}
+            "status": rng.choice([0, 3, 127]), "how": rng.choice(["export", "assign", "export", "assign", "assign-then-export", "export-then-assign"])}
 
 
 def _work(case):
@@ -223,7 +237,7 @@ def run(tier, seed):
     rep = Report("C10", tier, seed)
     rep.rule = ("words of 1..6 adjacent segments {literal, $N, ${N}, $?, $$} over names A AB A_ B X Y Z NOPE (prefixes "
                 "of one another, unset ones), unquoted / double-quoted / single-quoted, under environments (exported by "
-                "the driver or assigned in the line) whose values are plain, blank-containing, $-references, $1, "
+                "the driver, assigned in the line, assigned then exported with a new value, or exported then re-assigned) whose values are plain, blank-containing, $-references, $1, "
                 "regex-special, backslashes, braces, glob/tilde, empty, self- and mutually referential.  "
                 "Non-trivial = at least one reference; distinct by (word, quote, environment, how).")
     rep.assumptions = ["names are matched greedily as [A-Za-z0-9_]+ (as the implementation's own pattern does)",
